@@ -109,6 +109,45 @@ func TestC05(t *testing.T) {
 	r.AddExtra("n_calibration_agree", nmatch)
 	r.AddExtra("n_calibration_inconclusive", nincon)
 
+	// the deterministic sweeps of C01 / C03 / C04 (operator pairs, substring and index bounds incl. the 9 -> 10
+	// boundary, operand-position table) under the cmd.exe model
+	sweeps := append(append([]*ts.Program{}, c01SweepPrograms()...), c03SweepPrograms(e.Pick(6, 12))...)
+	for _, tp := range c04TablePrograms() {
+		stmts := append(append(append([]ts.Stmt{}, gen.TracerPrelude()...), tp.funcs...), tp.stmts...)
+		sweeps = append(sweeps, ts.Single(stmts))
+	}
+	nsweep := 0
+	for i, p := range sweeps {
+		if !e.Mine(i) {
+			continue
+		}
+		ref, err := refRun(p, 400000, nil, nil)
+		if err != nil {
+			r.HarnessError("sweep program %d is outside the interpreter's domain: %v", i, err)
+			continue
+		}
+		if ref.MaxAbs > 2147483647 || ref.Overflow {
+			continue
+		}
+		files := ts.Sources(p)
+		c := batchCase{Kind: "batch-model-run", Property: "C05", Files: files, Main: p.Main, ExpectStdout: ref.Stdout, ExpectStatus: ref.Status, Note: fmt.Sprintf("sweep-%d", i)}
+		kind, msg, res := runBatchCase(c)
+		nsweep++
+		r.Eval()
+		r.Class("sweep")
+		switch {
+		case strings.HasPrefix(kind, "inconclusive"):
+			r.Inconclusive("sweep:" + strings.SplitN(strings.TrimPrefix(kind, "inconclusive:"), ":", 3)[0])
+		case kind == "":
+			if c05NonTrivial(res) {
+				r.NonTrivial(files[p.Main], nil)
+			}
+		default:
+			r.Violate(rep.Sig{"kind": kind, "sweep": fmt.Sprint(i)}, fmt.Sprintf("sweep program %d: %s\n--- source\n%s", i, msg, files[p.Main]), c)
+		}
+	}
+	r.AddExtra("n_sweep_programs", nsweep)
+
 	cfgs := []gen.Cfg{
 		{MaxStmts: 20, MaxDepth: 4, ExprDepth: 3, Panics: true, LoopBudget: 16, CmdNeutral: true},
 		{MaxStmts: 22, MaxDepth: 3, ExprDepth: 3, Funcs: true, MaxFuncs: 4, Slices: true, LoopBudget: 10, DumpGlobal: true, CmdNeutral: true},
